@@ -74,7 +74,7 @@ def event_actions(prev, cur):
             acts.append(["exec", b["where"], vprogs.render_def(name, b, cur, "vpk")])
             for other, od in cur["defs"].items():         # aliases of the redefined function keep pointing at the old object
                 if od["kind"] != "var" and [name, "alias"] in od["refs"] and od["where"] == b["where"]:
-                    acts.append(["exec", b["where"], "a_%s = %s\\n" % (name, name)])
+                    acts.append(["exec", b["where"], "a_%s = %s\n" % (name, name)])
                     break
     return acts
 
@@ -117,6 +117,43 @@ def edit_feature(prev, cur):
             if a is None or a.get(k) != b.get(k):
                 feats.append("%s:%s" % (b["kind"], k))
     return sorted(set(feats))
+
+
+def _fn(kind, refs, **kw):
+    d = dict(kind=kind, where="mod", const=1, setc=None, tup=None, dflt=None, kwd=None, lam=None, refs=refs)
+    if kind == "memento":
+        d["explicit"] = None
+    else:
+        d["wrapped"] = False
+    d.update(kw)
+    return d
+
+
+def corpus():
+    """hand-written histories (minimised past findings and shapes the generator reaches rarely)"""
+    out = []
+    # a variable / helper referenced only inside the arguments of a call whose result is dereferenced
+    p0 = dict(defs={"V1": dict(kind="var", where="mod", value=3), "h1": _fn("plain", []),
+                    "m1": _fn("memento", [["V1", "chained"], ["h1", "chained"]])}, order=["V1", "h1", "m1"])
+    p1 = json.loads(json.dumps(p0)); p1["defs"]["V1"]["value"] = 5
+    p2 = json.loads(json.dumps(p1)); p2["defs"]["h1"]["const"] = 9
+    out.append([p0, p1, p2])
+    # defaults and keyword-only defaults of a plain helper and of a memento dependency; set constants
+    q0 = dict(defs={"h1": _fn("plain", [], dflt=1, kwd=5), "m1": _fn("memento", [["h1", "bare"]], dflt=1, setc=["a", "b"]),
+                    "m2": _fn("memento", [["m1", "bare"], ["h1", "alias"]])}, order=["h1", "m1", "m2"])
+    q1 = json.loads(json.dumps(q0)); q1["defs"]["h1"]["dflt"] = 2
+    q2 = json.loads(json.dumps(q1)); q2["defs"]["m1"]["kwd"] = 6
+    q3 = json.loads(json.dumps(q2)); q3["defs"]["m1"]["setc"] = ["a", "c"]
+    q4 = json.loads(json.dumps(q3)); q4["defs"]["h1"]["kwd"] = 6
+    out.append([q0, q1, q2, q3, q4])
+    # a dependency reached only through another memento function / a plain helper (depth 2), variable edited
+    r0 = dict(defs={"V1": dict(kind="var", where="aux", value=[1, 2]), "h1": _fn("plain", [["V1", "bare"]], where="aux"),
+                    "m1": _fn("memento", [["h1", "bare"]]), "m2": _fn("memento", [["m1", "bare"]]), "m3": _fn("memento", [["m2", "bare"]])},
+              order=["V1", "h1", "m1", "m2", "m3"])
+    r1 = json.loads(json.dumps(r0)); r1["defs"]["V1"]["value"] = [2, 1]
+    r2 = json.loads(json.dumps(r1)); r2["defs"]["h1"]["lam"] = 2
+    out.append([r0, r1, r2])
+    return out
 
 
 def main(chk, replay=None):
@@ -162,9 +199,19 @@ def main(chk, replay=None):
             shutil.rmtree(root, ignore_errors=True)
         return eds, logs, fx, fi
 
+    def work_corpus(eds):
+        root = tempfile.mkdtemp(prefix="c01c_", dir=chk.tmpdir())
+        try:
+            fx, _ = cross_process(eds, os.path.join(root, "x"))
+            fi = in_process(eds, os.path.join(root, "i"))
+        finally:
+            shutil.rmtree(root, ignore_errors=True)
+        return eds, [[["corpus", "-"]]], fx, fi
+
     seeds = [rng.randrange(1 << 30) for _ in range(nprog)]
     with concurrent.futures.ThreadPoolExecutor(max_workers=8) as ex:
-        for eds, logs, fx, fi in ex.map(work, seeds):
+        results = list(ex.map(work_corpus, corpus())) + list(ex.map(work, seeds))
+        for eds, logs, fx, fi in results:
             for delivery, fails in (("cross-process", fx), ("in-process", fi)):
                 chk.case([eds, delivery], nontrivial=len(eds) > 1,
                          sample=dict(delivery=delivery, edits=logs[:3], defs=list(eds[0]["defs"])))
